@@ -211,7 +211,7 @@ fn doc(k: usize) -> Result<Doc, String> {
     let d = e57spec::xml::parse(&xml)?;
     let mut child_positions = Vec::new();
     let mut attr_positions = Vec::new();
-    fn walk(e: &e57spec::xml::Elem, in_proto: bool, cp: &mut Vec<(String, usize)>, ap: &mut Vec<(String, usize)>) {
+    fn walk(xml: &str, e: &e57spec::xml::Elem, in_proto: bool, cp: &mut Vec<(String, usize)>, ap: &mut Vec<(String, usize)>) {
         if in_proto || e.local == "prototype" {
             return; // foreign children of a prototype are, by the format, additional point attributes
         }
@@ -236,13 +236,19 @@ fn doc(k: usize) -> Result<Doc, String> {
                 cp.push((format!("{}#before-text", e.local), e.open_end + 1));
                 let close = e.end - (e.local.len() + if e.prefix.is_empty() { 0 } else { e.prefix.len() + 1 } + 3);
                 cp.push((format!("{}#after-text", e.local), close));
+                // and in the middle of plain text (no references, CDATA or multi-byte characters)
+                if let Some(t) = xml.get(e.open_end + 1..close) {
+                    if t.len() >= 2 && t.is_ascii() && !t.contains('&') && !t.contains('<') {
+                        cp.push((format!("{}#mid-text", e.local), e.open_end + 1 + t.len() / 2));
+                    }
+                }
             }
         }
         for c in e.child_elems() {
-            walk(c, false, cp, ap);
+            walk(xml, c, false, cp, ap);
         }
     }
-    walk(&d.root, false, &mut child_positions, &mut attr_positions);
+    walk(&xml, &d.root, false, &mut child_positions, &mut attr_positions);
     Ok(Doc { bytes, xml, xs, xe, log, child_positions, attr_positions })
 }
 
